@@ -3,8 +3,13 @@ import TbotVerif.Props.LifeLemmas
 
     The operational model of `Machine.__enter__/__exit__`, `ExitStack` and `PowerControl`
     (`Model/Life.lean`) satisfies the declarative life-cycle specification `Spec.C13`
-    (`Spec/Life.lean`) for EVERY composition, fault assignment and balanced nesting history
-    (induction on the step list / the body / the session list; nothing is bounded). -/
+    (`Spec/Life.lean`) for EVERY composition — with any number of steps whose context manager
+    HANDLES the exception passing through it —, fault assignment and balanced nesting history
+    (induction on the step list / the body / the session list; nothing is bounded).
+
+    Theorems that existed before handling steps were modelled keep their statement; where the
+    statement is about the exception that reaches the caller they carry the hypothesis "no step
+    handles" (`hno`) and have a handling-aware sibling (`…_handling`). -/
 
 namespace C13
 open Life
@@ -15,14 +20,14 @@ def Frame.ev : Frame → Ev
   | .cm id => .exit id
   | .power id => .off id
 
-theorem nested_enter_silent (f : Faults) (delay : Nat) (steps : List Step) (m : Mach) (h : 1 ≤ m.rc) :
-    machEnter f delay steps m = ([], none, { m with rc := m.rc + 1 }) := by
+theorem nested_enter_silent (f : Faults) (H : Handles) (delay : Nat) (steps : List Step) (m : Mach) (h : 1 ≤ m.rc) :
+    machEnter f H delay steps m = ([], none, { m with rc := m.rc + 1 }) := by
   unfold machEnter
   have : m.rc + 1 > 1 := by omega
   simp [this]
 
-theorem nested_exit_silent (f : Faults) (exc : Option Tag) (m : Mach) (h : 2 ≤ m.rc) :
-    machExit f exc m = ([], exc, { m with rc := m.rc - 1 }) := by
+theorem nested_exit_silent (f : Faults) (H : Handles) (exc : Option Tag) (m : Mach) (h : 2 ≤ m.rc) :
+    machExit f H exc m = ([], exc, { m with rc := m.rc - 1 }) := by
   unfold machExit
   have : (m.rc - 1 == 0) = false := by
     simp; omega
@@ -36,20 +41,47 @@ theorem frame_run (f : Faults) (fr : Frame) (env : Env) :
     simp only [Frame.run, Frame.ev, faultTag, powerOff]
     split <;> simp [*]
 
-theorem unwind_spec (f : Faults) : ∀ (cx : List Frame) (exc : Option Tag) (env : Env),
-    (unwind f cx exc env).1 = cx.map Frame.ev
-    ∧ (unwind f cx exc env).2.1 = lastRaised f (cx.map Frame.ev) exc
-  | [], exc, env => by simp [unwind, lastRaised]
-  | fr :: rest, exc, env => by
+theorem frame_handles (H : Handles) (fr : Frame) : fr.handles H = handlesEv H (Frame.ev fr) := by
+  cases fr <;> rfl
+
+theorem flight_after_raised (fl : Flight) (r : Option Tag) (h : Bool) :
+    (fl.after r h).raised = match r with
+      | some t => some t
+      | none => if h then none else fl.raised := by
+  cases r with
+  | some t => rfl
+  | none => cases h <;> rfl
+
+/-- **The exit stack, with handling steps.**  Every registered callback runs, in stack order,
+    whatever is handled; what the stack raises at the end is the last tear-down fault after which
+    no handling step exited cleanly. -/
+theorem unwind_spec_handling (f : Faults) (H : Handles) : ∀ (cx : List Frame) (fl : Flight) (env : Env),
+    (unwind f H cx fl env).1 = cx.map Frame.ev
+    ∧ (unwind f H cx fl env).2.1.raised = pendingFault f H (cx.map Frame.ev) fl.raised
+  | [], fl, env => by simp [unwind, pendingFault]
+  | fr :: rest, fl, env => by
     obtain ⟨h1, h2⟩ := frame_run f fr env
     unfold unwind
     generalize hr : fr.run f env = R at h1 h2
     obtain ⟨ev, r, env1⟩ := R
     simp only at h1 h2
     subst h1 h2
-    have ih := unwind_spec f rest ((faultTag f (Frame.ev fr)).or exc) env1
-    simp only [List.map_cons, lastRaised_cons]
-    exact ⟨by simp [ih.1], ih.2⟩
+    have ih := unwind_spec_handling f H rest (fl.after (faultTag f (Frame.ev fr)) (fr.handles H)) env1
+    simp only [List.map_cons, pendingFault_cons]
+    refine ⟨by simp [ih.1], ?_⟩
+    rw [ih.2, flight_after_raised, frame_handles]
+    cases faultTag f (Frame.ev fr) <;> rfl
+
+/-- the exit stack of a composition without handling steps: the last exception raised wins, an
+    exception that nobody replaced stays in flight -/
+theorem unwind_spec (f : Faults) (H : Handles) (hno : ∀ i, H i = false) (cx : List Frame) (exc : Option Tag) (env : Env) :
+    (unwind f H cx { exc := exc } env).1 = cx.map Frame.ev
+    ∧ (unwind f H cx { exc := exc } env).2.1.raised.or exc = lastRaised f (cx.map Frame.ev) exc := by
+  obtain ⟨h1, h2⟩ := unwind_spec_handling f H cx { exc := exc } env
+  refine ⟨h1, ?_⟩
+  have hH : H = fun _ => false := funext hno
+  rw [h2, hH, pendingFault_nohandle f _ _ _ (fun e _ => handlesEv_none e)]
+  exact lastRaised_or f _ none exc
 
 theorem noSleep_power_evs (id slp : Nat) (tail : List Ev) :
     noSleep (Ev.check id :: ((if slp > 0 then [Ev.sleep slp] else []) ++ (Ev.on id :: tail)))
@@ -60,7 +92,7 @@ theorem enterStep_ok (f : Faults) (delay : Nat) (s : Step) (env env1 : Env) (ev 
     (h : enterStep f delay s env = (ev, .ok fr, env1)) :
     noSleep ev = beginEvs s ∧ (∀ e ∈ beginEvs s, raises f e = false)
       ∧ fr.toList.map Frame.ev = teardown f (beginEvs s) := by
-  obtain ⟨id, k⟩ := s
+  obtain ⟨id, k, hd⟩ := s
   cases k
   case power =>
     simp only [enterStep, powerOn] at h
@@ -99,7 +131,7 @@ theorem enterStep_err (f : Faults) (delay : Nat) (s : Step) (env env1 : Env) (ev
     noSleep ev = uptoFirst (raises f) (beginEvs s) ++ teardown f (uptoFirst (raises f) (beginEvs s))
       ∧ (beginEvs s).any (raises f) = true
       ∧ some t = lastRaised f (noSleep ev) none := by
-  obtain ⟨id, k⟩ := s
+  obtain ⟨id, k, hd⟩ := s
   cases k
   case power =>
     simp only [enterStep, powerOn] at h
@@ -147,11 +179,181 @@ theorem noSleep_frames (cx : List Frame) : noSleep (cx.map Frame.ev) = cx.map Fr
   | nil => rfl
   | cons fr cx ih => cases fr <;> simpa [noSleep, Frame.ev, isSleep] using ih
 
+/-- **One unit.**  The context managers of a unit are entered in order; when all come up they are
+    handed (on top of `held`) to the caller; when one raises, the ones entered before it are exited
+    at once, innermost first, and the last exception raised leaves the unit. -/
+theorem enterUnit_spec (f : Faults) (delay : Nat) : ∀ (u : List Step) (held : List Frame) (env : Env),
+    (∀ ev frs env1, enterUnit f delay u held env = (ev, .ok frs, env1) →
+        noSleep ev = u.flatMap beginEvs ∧ (∀ e ∈ u.flatMap beginEvs, raises f e = false)
+        ∧ frs.map Frame.ev = teardown f (u.flatMap beginEvs) ++ held.map Frame.ev)
+    ∧ (∀ ev t env1, enterUnit f delay u held env = (ev, .error t, env1) →
+        noSleep ev = uptoFirst (raises f) (u.flatMap beginEvs)
+            ++ (teardown f (uptoFirst (raises f) (u.flatMap beginEvs)) ++ held.map Frame.ev)
+        ∧ (u.flatMap beginEvs).any (raises f) = true
+        ∧ some t = lastRaised f (noSleep ev) none)
+  | [], held, env => by
+    refine ⟨?_, ?_⟩
+    · intro ev frs env1 h
+      simp only [enterUnit, Prod.mk.injEq, Except.ok.injEq] at h
+      obtain ⟨rfl, rfl, rfl⟩ := h
+      simp [noSleep, teardown]
+    · intro ev t env1 h
+      simp [enterUnit] at h
+  | s :: rest, held, env => by
+    unfold enterUnit
+    cases hs : enterStep f delay s env with
+    | mk ev0 R =>
+    obtain ⟨res, env0⟩ := R
+    cases res with
+    | error t0 =>
+      obtain ⟨h1, h2, h3⟩ := enterStep_err f delay s env env0 ev0 t0 hs
+      have hexp : uptoFirst (raises f) ((s :: rest).flatMap beginEvs) = uptoFirst (raises f) (beginEvs s) := by
+        simp only [List.flatMap_cons]
+        exact uptoFirst_append_of_any h2
+      obtain ⟨u1, u2⟩ := unwind_spec f (fun _ => false) (fun _ => rfl) held (some t0) env0
+      simp only
+      generalize unwind f (fun _ => false) held { exc := some t0 } env0 = U at u1 u2 ⊢
+      obtain ⟨evx, fl, env2⟩ := U
+      simp only at u1 u2
+      refine ⟨?_, ?_⟩
+      · intro ev frs env1 h
+        simp at h
+      · intro ev t env1 h
+        simp only [Prod.mk.injEq, Except.error.injEq] at h
+        obtain ⟨rfl, rfl, rfl⟩ := h
+        have hns : noSleep (ev0 ++ evx) = noSleep ev0 ++ held.map Frame.ev := by
+          rw [noSleep_append, u1, noSleep_frames]
+        refine ⟨?_, ?_, ?_⟩
+        · rw [hns, h1, hexp, List.append_assoc]
+        · simp only [List.flatMap_cons, List.any_append, h2, Bool.true_or]
+        · rw [hns, lastRaised_append, ← h3, ← u2]
+          cases fl.raised <;> rfl
+    | ok fr =>
+      obtain ⟨h1, h2, h3⟩ := enterStep_ok f delay s env env0 ev0 fr hs
+      obtain ⟨iok, ierr⟩ := enterUnit_spec f delay rest (fr.toList ++ held) env0
+      simp only
+      generalize enterUnit f delay rest (fr.toList ++ held) env0 = R at iok ierr ⊢
+      obtain ⟨evs, r, env2⟩ := R
+      simp only
+      refine ⟨?_, ?_⟩
+      · intro ev frs env1 h
+        simp only [Prod.mk.injEq] at h
+        obtain ⟨rfl, rfl, rfl⟩ := h
+        obtain ⟨a1, a2, a3⟩ := iok evs frs env2 rfl
+        refine ⟨?_, ?_, ?_⟩
+        · rw [noSleep_append, h1, a1, List.flatMap_cons]
+        · intro e he
+          rw [List.flatMap_cons] at he
+          rcases List.mem_append.mp he with he | he
+          · exact h2 e he
+          · exact a2 e he
+        · rw [a3, List.flatMap_cons, teardown_append, List.map_append, h3, List.append_assoc]
+      · intro ev t env1 h
+        simp only [Prod.mk.injEq] at h
+        obtain ⟨rfl, rfl, rfl⟩ := h
+        obtain ⟨a1, a2, a3⟩ := ierr evs t env2 rfl
+        have hexp : uptoFirst (raises f) ((s :: rest).flatMap beginEvs)
+            = beginEvs s ++ uptoFirst (raises f) (rest.flatMap beginEvs) := by
+          simp only [List.flatMap_cons]
+          exact uptoFirst_append_of_none h2
+        refine ⟨?_, ?_, ?_⟩
+        · rw [noSleep_append, h1, a1, hexp, teardown_append, List.map_append, h3]
+          simp only [List.append_assoc]
+        · simp only [List.flatMap_cons, List.any_append, a2, Bool.or_true]
+        · rw [noSleep_append, h1, lastRaised_append, lastRaised_of_none f _ _ h2]
+          exact a3
+
+/-- **Initialisation, by units.**  The units are entered in order up to the first that fails; the
+    begin callbacks that run are those of the started units, then those of the failing unit up to
+    the callback that raised, followed by the clean-up the failing unit does itself; what is
+    registered on the exit stack is exactly the tear-down of the started units; the exception is the
+    last one raised. -/
+theorem enterUnits_split (f : Faults) (delay : Nat) : ∀ (us : List (List Step)) (cx : List Frame) (env : Env),
+    noSleep (enterUnits f delay us cx env).1
+        = (splitInit f us).1 ++ ((splitInit f us).2 ++ teardown f (splitInit f us).2)
+      ∧ (enterUnits f delay us cx env).2.2.1.map Frame.ev
+          = teardown f (splitInit f us).1 ++ cx.map Frame.ev
+      ∧ (enterUnits f delay us cx env).2.1
+          = lastRaised f ((splitInit f us).2 ++ teardown f (splitInit f us).2) none
+      ∧ ((enterUnits f delay us cx env).2.1 = none → (splitInit f us).2 = [])
+      ∧ ((enterUnits f delay us cx env).2.1 ≠ none → (splitInit f us).2.any (raises f) = true)
+  | [], cx, env => by
+    simp [enterUnits, splitInit, noSleep, teardown, lastRaised]
+  | u :: rest, cx, env => by
+    unfold enterUnits
+    obtain ⟨uok, uerr⟩ := enterUnit_spec f delay u [] env
+    cases hs : enterUnit f delay u [] env with
+    | mk ev R =>
+    obtain ⟨res, env1⟩ := R
+    cases res with
+    | error t =>
+      obtain ⟨h1, h2, h3⟩ := uerr ev t env1 hs
+      simp only [List.map_nil, List.append_nil] at h1
+      have hsp : splitInit f (u :: rest) = ([], uptoFirst (raises f) (u.flatMap beginEvs)) := by
+        simp [splitInit, h2]
+      simp only [hsp, List.nil_append]
+      refine ⟨h1, by simp [teardown], ?_, ?_, ?_⟩
+      · rw [← h1]; exact h3
+      · intro h; simp at h
+      · intro _
+        have := uptoFirst_all_not_of_any h2
+        rw [List.all_eq_false] at this
+        obtain ⟨x, hx, hp⟩ := this
+        rw [List.any_eq_true]
+        exact ⟨x, hx, by simpa using hp⟩
+    | ok frs =>
+      obtain ⟨h1, h2, h3⟩ := uok ev frs env1 hs
+      simp only [List.map_nil, List.append_nil] at h3
+      obtain ⟨i1, i2, i3, i4, i5⟩ := enterUnits_split f delay rest (frs ++ cx) env1
+      have hany : (u.flatMap beginEvs).any (raises f) = false := by
+        rw [List.any_eq_false]
+        intro x hx
+        simp [h2 x hx]
+      have hsp : splitInit f (u :: rest)
+          = (u.flatMap beginEvs ++ (splitInit f rest).1, (splitInit f rest).2) := by
+        simp [splitInit, hany]
+      simp only [hsp]
+      refine ⟨?_, ?_, i3, i4, i5⟩
+      · rw [noSleep_append, h1, i1, List.append_assoc]
+      · rw [i2, teardown_append, List.map_append, h3, List.append_assoc]
+
 /-- **Initialisation.**  For every step list, fault assignment, stack and environment: the begin
     callbacks that run are those of the steps in list order up to and including the first one that
-    raises; what is registered on the exit stack (plus the power-off already done by a failing
-    `poweron`) is exactly the tear-down owed for them; the exception is the last one raised. -/
-theorem enterSteps_spec (f : Faults) (delay : Nat) : ∀ (steps : List Step) (cx : List Frame) (env : Env),
+    raises, followed by the clean-up the failing unit does itself (the power-off of a failing
+    `poweron`, the exit of the lab-host clone of a failing `connect`); what is registered on the
+    exit stack is exactly the tear-down of the units that were started; the exception is the last
+    one raised. -/
+theorem enterSteps_split (f : Faults) (delay : Nat) (steps : List Step) (cx : List Frame) (env : Env) :
+    noSleep (enterSteps f delay steps cx env).1
+        = expectedInit steps f ++ ownCleanup f steps
+      ∧ (enterSteps f delay steps cx env).2.2.1.map Frame.ev
+          = stackTeardown f steps ++ cx.map Frame.ev
+      ∧ (enterSteps f delay steps cx env).2.1
+          = lastRaised f (expectedInit steps f ++ ownCleanup f steps) none
+      ∧ ((enterSteps f delay steps cx env).2.1 = none →
+          (∀ e ∈ expectedInit steps f, raises f e = false))
+      ∧ ((enterSteps f delay steps cx env).2.1 ≠ none →
+          (expectedInit steps f).all (fun e => !raises f e) = false) := by
+  obtain ⟨i1, i2, i3, i4, i5⟩ := enterUnits_split f delay (units steps) cx env
+  unfold enterSteps
+  rw [expectedInit_split]
+  unfold ownCleanup stackTeardown startedInit failedInit
+  refine ⟨by rw [i1, List.append_assoc], i2, ?_, ?_, ?_⟩
+  · rw [i3, List.append_assoc, lastRaised_append _ (splitInit f (units steps)).1,
+      lastRaised_of_none f _ _ (splitInit_started_none f _)]
+  · intro h e he
+    rw [i4 h, List.append_nil] at he
+    exact splitInit_started_none f _ e he
+  · intro h
+    have := i5 h
+    rw [List.any_eq_true] at this
+    obtain ⟨x, hx, hp⟩ := this
+    rw [List.all_eq_false]
+    exact ⟨x, List.mem_append_right _ hx, by simp [hp]⟩
+
+/-- the same in the form it had before handling steps were modelled: some part `extra` of the
+    tear-down owed has already run, the rest is registered -/
+theorem enterSteps_spec (f : Faults) (delay : Nat) (steps : List Step) (cx : List Frame) (env : Env) :
     ∃ extra, noSleep (enterSteps f delay steps cx env).1 = expectedInit steps f ++ extra
       ∧ extra ++ (enterSteps f delay steps cx env).2.2.1.map Frame.ev
           = teardown f (expectedInit steps f) ++ cx.map Frame.ev
@@ -159,67 +361,30 @@ theorem enterSteps_spec (f : Faults) (delay : Nat) : ∀ (steps : List Step) (cx
       ∧ ((enterSteps f delay steps cx env).2.1 = none →
           (∀ e ∈ expectedInit steps f, raises f e = false) ∧ extra = [])
       ∧ ((enterSteps f delay steps cx env).2.1 ≠ none →
-          (expectedInit steps f).all (fun e => !raises f e) = false)
-  | [], cx, env => ⟨[], by simp [enterSteps, expectedInit, uptoFirst, noSleep, teardown, lastRaised]⟩
-  | s :: rest, cx, env => by
-    unfold enterSteps
-    cases hs : enterStep f delay s env with
-    | mk ev R =>
-    obtain ⟨res, env1⟩ := R
-    cases res with
-    | error t =>
-      obtain ⟨h1, h2, h3⟩ := enterStep_err f delay s env env1 ev t hs
-      have hexp : expectedInit (s :: rest) f = uptoFirst (raises f) (beginEvs s) := by
-        simp only [expectedInit, List.flatMap_cons]
-        exact uptoFirst_append_of_any h2
-      refine ⟨teardown f (uptoFirst (raises f) (beginEvs s)), ?_, ?_, ?_, ?_, ?_⟩
-      · simpa [hexp] using h1
-      · simp [hexp]
-      · simp only [hexp]; rw [← h1]; exact h3
-      · intro h; simp at h
-      · intro _
-        rw [hexp]
-        exact uptoFirst_all_not_of_any h2
-    | ok fr =>
-      obtain ⟨h1, h2, h3⟩ := enterStep_ok f delay s env env1 ev fr hs
-      obtain ⟨extra, i1, i2, i3, i4, i5⟩ := enterSteps_spec f delay rest (fr.toList ++ cx) env1
-      have hexp : expectedInit (s :: rest) f = beginEvs s ++ expectedInit rest f := by
-        simp only [expectedInit, List.flatMap_cons]
-        exact uptoFirst_append_of_none h2
-      simp only
-      refine ⟨extra, ?_, ?_, ?_, ?_, ?_⟩
-      · rw [noSleep_append, h1, i1, hexp, List.append_assoc]
-      · rw [i2, hexp, teardown_append, List.map_append, h3, List.append_assoc]
-      · rw [i3, hexp, List.append_assoc, lastRaised_append _ (beginEvs s), lastRaised_of_none f _ _ h2]
-      · intro h
-        obtain ⟨a, b⟩ := i4 h
-        refine ⟨?_, b⟩
-        intro e he
-        rw [hexp] at he
-        rcases List.mem_append.mp he with he | he
-        · exact h2 e he
-        · exact a e he
-      · intro h
-        have := i5 h
-        rw [hexp, List.all_append, this, Bool.and_false]
+          (expectedInit steps f).all (fun e => !raises f e) = false) := by
+  obtain ⟨i1, i2, i3, i4, i5⟩ := enterSteps_split f delay steps cx env
+  refine ⟨ownCleanup f steps, i1, ?_, i3, ?_, i5⟩
+  · rw [i2, teardown_split, List.append_assoc]
+  · intro h
+    exact ⟨i4 h, (ownCleanup_of_none steps f (i4 h)).1⟩
 
-theorem propagate_silent (f : Faults) : ∀ (d : Nat) (t : Tag) (m : Mach), m.rc = d + 1 →
-    propagate f d t m = ([], t, { m with rc := 1 })
+theorem propagate_silent (f : Faults) (H : Handles) : ∀ (d : Nat) (t : Tag) (m : Mach), m.rc = d + 1 →
+    propagate f H d t m = ([], t, { m with rc := 1 })
   | 0, t, m, h => by
     simp only [propagate]
     cases m; simp_all
   | d + 1, t, m, h => by
     unfold propagate
-    rw [nested_exit_silent f (some t) m (by omega)]
+    rw [nested_exit_silent f H (some t) m (by omega)]
     simp only [Option.getD_some, List.nil_append]
-    rw [propagate_silent f d t _ (by simp; omega)]
+    rw [propagate_silent f H d t _ (by simp; omega)]
 
 /-- **Nested entries and exits do nothing.**  While the outermost `with m:` is open, a balanced
     body produces only its own events, touches neither the exit stack nor the environment, and
     leaves the counter at 1 — whether it completes or raises at any depth. -/
-theorem runBody_spec (f : Faults) (delay : Nat) (steps : List Step) : ∀ (ops : List Op) (d : Nat) (m : Mach),
+theorem runBody_spec (f : Faults) (H : Handles) (delay : Nat) (steps : List Step) : ∀ (ops : List Op) (d : Nat) (m : Mach),
     m.rc = d + 1 → balanced ops d = true →
-    runBody f delay steps ops d m
+    runBody f H delay steps ops d m
       = (expectedBody ops, lastRaised f (expectedBody ops) none, { m with rc := 1 })
   | [], d, m, h, hb => by
     simp only [balanced, beq_iff_eq] at hb
@@ -229,54 +394,78 @@ theorem runBody_spec (f : Faults) (delay : Nat) (steps : List Step) : ∀ (ops :
   | .opened :: ops, d, m, h, hb => by
     simp only [balanced] at hb
     unfold runBody
-    rw [nested_enter_silent f delay steps m (by omega)]
+    rw [nested_enter_silent f H delay steps m (by omega)]
     simp only [List.nil_append]
-    rw [runBody_spec f delay steps ops (d + 1) _ (by simp; omega) hb, expectedBody_cons_opened]
+    rw [runBody_spec f H delay steps ops (d + 1) _ (by simp; omega) hb, expectedBody_cons_opened]
     simp [lastRaised_cons, faultTag]
   | .closed :: ops, d, m, h, hb => by
     simp only [balanced, Bool.and_eq_true, decide_eq_true_eq] at hb
     unfold runBody
-    rw [nested_exit_silent f none m (by omega)]
+    rw [nested_exit_silent f H none m (by omega)]
     simp only [List.nil_append]
-    rw [runBody_spec f delay steps ops (d - 1) _ (by simp; omega) hb.2, expectedBody_cons_closed]
+    rw [runBody_spec f H delay steps ops (d - 1) _ (by simp; omega) hb.2, expectedBody_cons_closed]
     simp [lastRaised_cons, faultTag]
   | .mark k :: ops, d, m, h, hb => by
     simp only [balanced] at hb
     unfold runBody
-    rw [runBody_spec f delay steps ops d m h hb, expectedBody_cons_mark]
+    rw [runBody_spec f H delay steps ops d m h hb, expectedBody_cons_mark]
     simp [lastRaised_cons, faultTag]
   | .raise k :: ops, d, m, h, hb => by
     unfold runBody
-    rw [propagate_silent f d _ m h, expectedBody_cons_raise]
+    rw [propagate_silent f H d _ m h, expectedBody_cons_raise]
     simp [lastRaised, faultTag]
 
-theorem machExit_last (f : Faults) (exc : Option Tag) (m : Mach) (h : m.rc = 1) :
-    (machExit f exc m).1 = m.cx.map Frame.ev
-    ∧ (machExit f exc m).2.1 = lastRaised f (m.cx.map Frame.ev) exc
-    ∧ (machExit f exc m).2.2.rc = 0 ∧ (machExit f exc m).2.2.cx = [] := by
+/-- the last exit: every registered callback runs; what propagates is the tear-down fault the
+    stack raised, else — `Machine.__exit__` returns `None` — the incoming exception -/
+theorem machExit_last_handling (f : Faults) (H : Handles) (exc : Option Tag) (m : Mach) (h : m.rc = 1) :
+    (machExit f H exc m).1 = m.cx.map Frame.ev
+    ∧ (machExit f H exc m).2.1 = (pendingFault f H (m.cx.map Frame.ev) none).or exc
+    ∧ (machExit f H exc m).2.2.rc = 0 ∧ (machExit f H exc m).2.2.cx = [] := by
   unfold machExit
   have : (m.rc - 1 == 0) = true := by simp [h]
   simp only [this, if_true]
-  obtain ⟨u1, u2⟩ := unwind_spec f m.cx exc m.env
-  exact ⟨u1, u2, trivial, trivial⟩
+  obtain ⟨u1, u2⟩ := unwind_spec_handling f H m.cx { exc := exc } m.env
+  refine ⟨u1, ?_, trivial, trivial⟩
+  simp only [u2]
+  rfl
 
-/-- **First entry.**  From counter 0 `__enter__` either brings every step up (counter 1, the exit
-    stack holds exactly the tear-down owed) or, at the first step that raises, tears down what had
-    been begun — in reverse, each once, continuing past faults — and leaves counter 0 and an empty
-    stack; the exception is the last one raised. -/
-theorem machEnter_fresh (f : Faults) (delay : Nat) (steps : List Step) (m : Mach) (h : m.rc = 0) :
-    ((machEnter f delay steps m).2.1 = none →
-        noSleep (machEnter f delay steps m).1 = expectedInit steps f
+theorem machExit_last (f : Faults) (H : Handles) (hno : ∀ i, H i = false) (exc : Option Tag) (m : Mach) (h : m.rc = 1) :
+    (machExit f H exc m).1 = m.cx.map Frame.ev
+    ∧ (machExit f H exc m).2.1 = lastRaised f (m.cx.map Frame.ev) exc
+    ∧ (machExit f H exc m).2.2.rc = 0 ∧ (machExit f H exc m).2.2.cx = [] := by
+  obtain ⟨x1, x2, x3, x4⟩ := machExit_last_handling f H exc m h
+  refine ⟨x1, ?_, x3, x4⟩
+  have hH : H = fun _ => false := funext hno
+  rw [x2, hH, pendingFault_nohandle f _ _ _ (fun e _ => handlesEv_none e)]
+  exact lastRaised_or f _ none exc
+
+/-- without handling steps "tear-down fault not handled further out, else the own exception" is
+    "the last exception raised" -/
+theorem or_plain (f : Faults) (H : Handles) (hno : ∀ i, H i = false) (pre st : List Ev) :
+    (pendingFault f H st none).or (lastRaised f pre none) = lastRaised f (pre ++ st) none := by
+  have hH : H = fun _ => false := funext hno
+  rw [hH, pendingFault_nohandle f _ _ _ (fun e _ => handlesEv_none e), lastRaised_or, lastRaised_append]
+  rfl
+
+/-- **First entry, with handling steps.**  From counter 0 `__enter__` either brings every step up
+    (counter 1, the exit stack holds exactly the tear-down owed) or, at the first step that raises,
+    tears down what had been begun — in reverse, each once, continuing past faults and past
+    handling steps — and leaves counter 0 and an empty stack; the exception is a tear-down fault
+    that no step further out handled, else the set-up's own exception (whatever was handled). -/
+theorem machEnter_fresh_handling (f : Faults) (H : Handles) (delay : Nat) (steps : List Step) (m : Mach) (h : m.rc = 0) :
+    ((machEnter f H delay steps m).2.1 = none →
+        noSleep (machEnter f H delay steps m).1 = expectedInit steps f
         ∧ (∀ e ∈ expectedInit steps f, raises f e = false)
-        ∧ (machEnter f delay steps m).2.2.rc = 1
-        ∧ (machEnter f delay steps m).2.2.cx.map Frame.ev = teardown f (expectedInit steps f))
-    ∧ ((machEnter f delay steps m).2.1 ≠ none →
-        noSleep (machEnter f delay steps m).1 = expectedInit steps f ++ teardown f (expectedInit steps f)
+        ∧ (machEnter f H delay steps m).2.2.rc = 1
+        ∧ (machEnter f H delay steps m).2.2.cx.map Frame.ev = teardown f (expectedInit steps f))
+    ∧ ((machEnter f H delay steps m).2.1 ≠ none →
+        noSleep (machEnter f H delay steps m).1 = expectedInit steps f ++ teardown f (expectedInit steps f)
         ∧ (expectedInit steps f).all (fun e => !raises f e) = false
-        ∧ (machEnter f delay steps m).2.1
-            = lastRaised f (expectedInit steps f ++ teardown f (expectedInit steps f)) none
-        ∧ (machEnter f delay steps m).2.2.rc = 0 ∧ (machEnter f delay steps m).2.2.cx = []) := by
-  obtain ⟨extra, i1, i2, i3, i4, i5⟩ := enterSteps_spec f delay steps [] m.env
+        ∧ (machEnter f H delay steps m).2.1
+            = (pendingFault f H (stackTeardown f steps) none).or
+                (lastRaised f (expectedInit steps f ++ ownCleanup f steps) none)
+        ∧ (machEnter f H delay steps m).2.2.rc = 0 ∧ (machEnter f H delay steps m).2.2.cx = []) := by
+  obtain ⟨i1, i2, i3, i4, i5⟩ := enterSteps_split f delay steps [] m.env
   unfold machEnter
   have hrc : ¬ (m.rc + 1 > 1) := by omega
   simp only [hrc, if_false]
@@ -285,40 +474,63 @@ theorem machEnter_fresh (f : Faults) (delay : Nat) (steps : List Step) (m : Mach
   simp only [List.map_nil, List.append_nil] at i1 i2 i3 i4 i5
   cases r with
   | none =>
-    obtain ⟨a, b⟩ := i4 rfl
-    subst b
-    simp only [List.append_nil, List.nil_append] at i1 i2
+    have a := i4 rfl
+    obtain ⟨b1, b2⟩ := ownCleanup_of_none steps f a
+    rw [b1, List.append_nil] at i1
+    rw [b2] at i2
     refine ⟨fun _ => ⟨i1, a, by simp [h], i2⟩, fun hne => absurd rfl hne⟩
   | some t =>
     simp only
-    obtain ⟨x1, x2, x3, x4⟩ := machExit_last f (some t) { rc := m.rc + 1, cx := cx, env := env } (by simp [h])
+    obtain ⟨x1, x2, x3, x4⟩ := machExit_last_handling f H (some t) { rc := m.rc + 1, cx := cx, env := env } (by simp [h])
     refine ⟨fun hn => ?_, fun _ => ⟨?_, i5 (by simp), ?_, x3, x4⟩⟩
     · rw [x2] at hn
-      have := lastRaised_isSome f (cx.map Frame.ev) t
-      simp [hn] at this
-    · rw [noSleep_append, i1, x1, noSleep_frames, List.append_assoc, i2]
-    · rw [x2, i3, ← lastRaised_append, List.append_assoc, i2]
+      cases hp : pendingFault f H (List.map Frame.ev cx) none <;> simp [hp] at hn
+    · rw [noSleep_append, i1, x1, noSleep_frames, List.append_assoc, i2, ← teardown_split]
+    · rw [x2, i3, i2]
 
-/-- **One session.**  For every step list, fault assignment, balanced body, environment and exit
-    stack left behind, a `with m: body` started at counter 0 produces the specified log, hands the
-    last exception raised to the caller and ends at counter 0 with an empty exit stack. -/
-theorem session_spec (delay : Nat) (steps : List Step) (s : Session) (m : Mach)
+/-- **First entry** of a composition without handling steps: the exception is the last one raised. -/
+theorem machEnter_fresh (f : Faults) (H : Handles) (hno : ∀ i, H i = false) (delay : Nat) (steps : List Step) (m : Mach)
+    (h : m.rc = 0) :
+    ((machEnter f H delay steps m).2.1 = none →
+        noSleep (machEnter f H delay steps m).1 = expectedInit steps f
+        ∧ (∀ e ∈ expectedInit steps f, raises f e = false)
+        ∧ (machEnter f H delay steps m).2.2.rc = 1
+        ∧ (machEnter f H delay steps m).2.2.cx.map Frame.ev = teardown f (expectedInit steps f))
+    ∧ ((machEnter f H delay steps m).2.1 ≠ none →
+        noSleep (machEnter f H delay steps m).1 = expectedInit steps f ++ teardown f (expectedInit steps f)
+        ∧ (expectedInit steps f).all (fun e => !raises f e) = false
+        ∧ (machEnter f H delay steps m).2.1
+            = lastRaised f (expectedInit steps f ++ teardown f (expectedInit steps f)) none
+        ∧ (machEnter f H delay steps m).2.2.rc = 0 ∧ (machEnter f H delay steps m).2.2.cx = []) := by
+  obtain ⟨hok, herr⟩ := machEnter_fresh_handling f H delay steps m h
+  refine ⟨hok, fun hne => ?_⟩
+  obtain ⟨e1, e2, e3, e4, e5⟩ := herr hne
+  refine ⟨e1, e2, ?_, e4, e5⟩
+  rw [e3, or_plain f H hno, List.append_assoc, ← teardown_split]
+
+/-- **One session, with handling steps.**  For every step list — any of the steps may handle the
+    exception passing through it —, fault assignment, balanced body, environment and exit stack
+    left behind, a `with m: body` started at counter 0 produces the specified log (every started
+    step torn down once, in reverse), hands to the caller the tear-down fault that no step further
+    out handled, else the set-up's / body's own exception, and ends at counter 0 with an empty exit
+    stack. -/
+theorem session_spec_handling (delay : Nat) (steps : List Step) (s : Session) (m : Mach)
     (hrc : m.rc = 0) (hb : balanced s.body 0 = true) :
     noSleep (runSession delay steps s m).1.trace = expectedTrace steps s.f s.body
-    ∧ (runSession delay steps s m).1.exc = lastRaised s.f (expectedTrace steps s.f s.body) none
+    ∧ (runSession delay steps s m).1.exc = expectedExc steps s.f s.body
     ∧ (runSession delay steps s m).1.rc = 0
     ∧ (runSession delay steps s m).2.rc = 0 ∧ (runSession delay steps s m).2.cx = [] := by
   unfold runSession
   have hrc0 : (advance s.gap m).rc = 0 := hrc
   generalize advance s.gap m = m0 at hrc0 ⊢
-  obtain ⟨hok, herr⟩ := machEnter_fresh s.f delay steps m0 hrc0
-  generalize machEnter s.f delay steps m0 = R at hok herr ⊢
+  obtain ⟨hok, herr⟩ := machEnter_fresh_handling s.f (handlesOf steps) delay steps m0 hrc0
+  generalize machEnter s.f (handlesOf steps) delay steps m0 = R at hok herr ⊢
   obtain ⟨ev1, r1, m1⟩ := R
   simp only at hok herr
   cases r1 with
   | some t =>
     obtain ⟨e1, e2, e3, e4, e5⟩ := herr (by simp)
-    simp only [expectedTrace, e2]
+    simp only [expectedTrace, expectedExc, survivingFault, ownExc, ownTrace, e2]
     refine ⟨?_, ?_, ?_, e4, e5⟩
     · simpa using e1
     · simpa using e3
@@ -327,16 +539,38 @@ theorem session_spec (delay : Nat) (steps : List Step) (s : Session) (m : Mach)
     obtain ⟨o1, o2, o3, o4⟩ := hok rfl
     have hall : (expectedInit steps s.f).all (fun e => !raises s.f e) = true :=
       (all_not_raises_iff _ _).mpr o2
+    obtain ⟨b1, b2⟩ := ownCleanup_of_none steps s.f o2
     simp only
-    rw [runBody_spec s.f delay steps s.body 0 m1 (by simp [o3]) hb]
+    rw [runBody_spec s.f (handlesOf steps) delay steps s.body 0 m1 (by simp [o3]) hb]
     simp only
-    obtain ⟨x1, x2, x3, x4⟩ := machExit_last s.f (lastRaised s.f (expectedBody s.body) none) { m1 with rc := 1 } rfl
-    simp only [expectedTrace, hall, if_true]
+    obtain ⟨x1, x2, x3, x4⟩ := machExit_last_handling s.f (handlesOf steps)
+      (lastRaised s.f (expectedBody s.body) none) { m1 with rc := 1 } rfl
+    simp only [expectedTrace, expectedExc, survivingFault, ownExc, ownTrace, hall, if_true, b1, b2, List.append_nil]
     refine ⟨?_, ?_, ?_, x3, x4⟩
     · rw [noSleep_append, noSleep_append, o1, x1, noSleep_frames, o4]
       rw [noSleep_expectedBody]
-    · rw [x2, o4, lastRaised_append, lastRaised_append, lastRaised_of_none s.f _ _ o2]
+    · rw [x2, o4, lastRaised_append, lastRaised_of_none s.f _ _ o2]
     · simp [x3]
+
+/-- without handling steps the caller gets the last exception raised along the log -/
+theorem expectedExc_plain (steps : List Step) (hno : ∀ s ∈ steps, s.handles = false) (f : Faults) (body : List Op) :
+    expectedExc steps f body = lastRaised f (expectedTrace steps f body) none := by
+  unfold expectedExc survivingFault ownExc
+  rw [or_plain f (handlesOf steps) (fun i => by rw [handlesOf_none hno])]
+  unfold ownTrace expectedTrace
+  simp only [List.append_assoc]
+  rw [← teardown_split]
+
+/-- **One session** of a composition without handling steps: the specified log, the last exception
+    raised reaches the caller, counter 0 and an empty exit stack afterwards. -/
+theorem session_spec (delay : Nat) (steps : List Step) (hno : ∀ s ∈ steps, s.handles = false) (s : Session) (m : Mach)
+    (hrc : m.rc = 0) (hb : balanced s.body 0 = true) :
+    noSleep (runSession delay steps s m).1.trace = expectedTrace steps s.f s.body
+    ∧ (runSession delay steps s m).1.exc = lastRaised s.f (expectedTrace steps s.f s.body) none
+    ∧ (runSession delay steps s m).1.rc = 0
+    ∧ (runSession delay steps s m).2.rc = 0 ∧ (runSession delay steps s m).2.cx = [] := by
+  obtain ⟨a, b, c⟩ := session_spec_handling delay steps s m hrc hb
+  exact ⟨a, by rw [b, expectedExc_plain steps hno], c⟩
 
 /-- **Step order.**  The order in which `Machine.__enter__` visits the classes (three filters over
     the MRO, with `_connect`, `_init_shell` and `init` resolved in between) is the documented one
@@ -362,34 +596,35 @@ theorem machSteps_eq_specOrder (mro : List Step)
     congr 1; funext s; cases s.kind <;> rfl
   rw [h2]
 
-theorem mroFrom_filter_length (k : Kind) : ∀ (ks : List Kind) (i : Nat),
-    ((mroFrom i ks).filter (fun s => s.kind == k)).length = ks.count k
+theorem mroFrom_filter_length (hs : List Nat) (k : Kind) : ∀ (ks : List Kind) (i : Nat),
+    ((mroFrom hs i ks).filter (fun s => s.kind == k)).length = ks.count k
   | [], _ => rfl
   | k' :: ks, i => by
     simp only [mroFrom, List.filter_cons, List.count_cons]
     by_cases h : k' = k
-    · subst h; simp [mroFrom_filter_length k' ks (i + 1)]
+    · subst h; simp [mroFrom_filter_length hs k' ks (i + 1)]
     · have : (k' == k) = false := by simpa using h
-      simp [this, mroFrom_filter_length k ks (i + 1)]
+      simp [this, mroFrom_filter_length hs k ks (i + 1)]
 
 theorem runSessions_spec (delay : Nat) (steps : List Step) : ∀ (ss : List Session) (m : Mach), m.rc = 0 →
     (∀ s ∈ ss, balanced s.body 0 = true) →
     specSessions steps ss (runSessions delay steps ss m) = true
   | [], _, _, _ => rfl
   | s :: ss, m, h, hb => by
-    obtain ⟨a, b, c, d, _⟩ := session_spec delay steps s m h (hb s (by simp))
+    obtain ⟨a, b, c, d, _⟩ := session_spec_handling delay steps s m h (hb s (by simp))
     unfold runSessions
     simp only [specSessions, specSession, Bool.and_eq_true, beq_iff_eq]
     refine ⟨⟨⟨a, b⟩, c⟩, runSessions_spec delay steps ss _ d (fun s' hs' => hb s' (by simp [hs']))⟩
 
-/-- **C13.**  For every well-formed case — every composition, every fault assignment of every
-    session, every balanced nesting history — the model's observation satisfies the specification,
-    including the fresh fault-free entry after the last session. -/
+/-- **C13.**  For every well-formed case — every composition with any of its steps handling the
+    exception passing through it, every fault assignment of every session, every balanced nesting
+    history — the model's observation satisfies the specification, including the fresh fault-free
+    entry after the last session. -/
 theorem run_spec (c : Case) (h : c.wf = true) : Spec.C13 c (run c) = true := by
   unfold Spec.C13
   rw [h, Bool.true_and]
   simp only [Case.wf, Bool.and_eq_true, beq_iff_eq, decide_eq_true_eq, List.all_eq_true] at h
-  obtain ⟨⟨⟨⟨⟨hc, hs⟩, _⟩, hh⟩, hl⟩, hb⟩ := h
+  obtain ⟨⟨⟨⟨⟨⟨hc, hs⟩, _⟩, hh⟩, hl⟩, hb⟩, _⟩ := h
   unfold run
   rw [machSteps_eq_specOrder c.mro
     (by unfold Case.mro; rw [mroFrom_filter_length]; omega)
@@ -406,12 +641,52 @@ theorem run_spec (c : Case) (h : c.wf = true) : Spec.C13 c (run c) = true := by
 
 /-- **An exception reaches the caller iff something raised**: the caller of a session sees no
     exception exactly when no callback in the log (and no body `raise`) raised. -/
-theorem exc_iff_raised (delay : Nat) (steps : List Step) (s : Session) (m : Mach)
+theorem exc_iff_raised (delay : Nat) (steps : List Step) (hno : ∀ s ∈ steps, s.handles = false) (s : Session) (m : Mach)
     (hrc : m.rc = 0) (hb : balanced s.body 0 = true) :
     (runSession delay steps s m).1.exc = none
       ↔ ∀ e ∈ (runSession delay steps s m).1.trace, raises s.f e = false := by
-  obtain ⟨a, b, _⟩ := session_spec delay steps s m hrc hb
+  obtain ⟨a, b, _⟩ := session_spec delay steps hno s m hrc hb
   rw [b, ← a, lastRaised_noSleep, lastRaised_none_iff]
+
+/-- … with handling steps: no exception reaches the caller exactly when neither the set-up nor the
+    body raised and no tear-down fault survived the steps further out (a tear-down fault that a
+    step further out handled is in the log but does not reach the caller) -/
+theorem exc_iff_raised_handling (delay : Nat) (steps : List Step) (s : Session) (m : Mach)
+    (hrc : m.rc = 0) (hb : balanced s.body 0 = true) :
+    (runSession delay steps s m).1.exc = none
+      ↔ (∀ e ∈ ownTrace steps s.f s.body, raises s.f e = false) ∧ survivingFault steps s.f = none := by
+  obtain ⟨_, b, _⟩ := session_spec_handling delay steps s m hrc hb
+  rw [b, expectedExc, Option.or_eq_none_iff, ownExc, lastRaised_none_iff]
+  exact And.comm
+
+theorem mem_stackTeardown {steps : List Step} {f : Faults} {e : Ev}
+    (h : e ∈ stackTeardown f steps) : e ∈ teardown f (expectedInit steps f) := by
+  rw [teardown_split]; exact List.mem_append_right _ h
+
+theorem mem_ownTrace {steps : List Step} {f : Faults} {body : List Op} {e : Ev}
+    (h : e ∈ ownTrace steps f body) : e ∈ expectedTrace steps f body := by
+  simp only [ownTrace, List.mem_append] at h
+  simp only [expectedTrace, List.mem_append]
+  rcases h with (h | h) | h
+  · exact Or.inl (Or.inl h)
+  · exact Or.inl (Or.inr h)
+  · right
+    rw [teardown_split]
+    exact List.mem_append_left _ h
+
+/-- whatever the steps handle: when nothing in the log raised, no exception reaches the caller -/
+theorem no_raise_no_exc (delay : Nat) (steps : List Step) (s : Session) (m : Mach)
+    (hrc : m.rc = 0) (hb : balanced s.body 0 = true)
+    (h : ∀ e ∈ (runSession delay steps s m).1.trace, raises s.f e = false) :
+    (runSession delay steps s m).1.exc = none := by
+  obtain ⟨a, _⟩ := session_spec_handling delay steps s m hrc hb
+  have h' : ∀ e ∈ expectedTrace steps s.f s.body, raises s.f e = false := by
+    intro e he
+    rw [← a] at he
+    exact h e (List.mem_filter.mp he).1
+  rw [exc_iff_raised_handling delay steps s m hrc hb]
+  exact ⟨fun e he => h' e (mem_ownTrace he),
+    pendingFault_of_none _ _ _ (fun e he => h' e (List.mem_append_right _ (mem_stackTeardown he)))⟩
 
 theorem probe_f : probe.f = fun _ => false := by
   funext t; simp [Session.f, probe]
@@ -425,8 +700,8 @@ theorem fresh_entry_reinit (delay : Nat) (steps : List Step) (s : Session) (m : 
         = steps.flatMap beginEvs ++ teardown (fun _ => false) (steps.flatMap beginEvs)
     ∧ (runSession delay steps probe (runSession delay steps s m).2).1.exc = none
     ∧ (runSession delay steps probe (runSession delay steps s m).2).1.rc = 0 := by
-  obtain ⟨_, _, _, d, _⟩ := session_spec delay steps s m hrc hb
-  obtain ⟨a, b, c, _⟩ := session_spec delay steps probe (runSession delay steps s m).2 d rfl
+  obtain ⟨_, _, _, d, _⟩ := session_spec_handling delay steps s m hrc hb
+  obtain ⟨a, b, c, _⟩ := session_spec_handling delay steps probe (runSession delay steps s m).2 d rfl
   have hnone : ∀ e ∈ steps.flatMap beginEvs, raises (fun _ => false) e = false := by
     intro e he
     obtain ⟨s', _, hs'⟩ := List.mem_flatMap.mp he
@@ -438,8 +713,15 @@ theorem fresh_entry_reinit (delay : Nat) (steps : List Step) (s : Session) (m : 
     simp only [expectedTrace, hini, (all_not_raises_iff _ _).mpr hnone, if_true]
     simp [probe, expectedBody, uptoFirst]
   refine ⟨by rw [a, hT], ?_, c⟩
-  rw [b, hT, probe_f, lastRaised_none_iff]
+  apply no_raise_no_exc delay steps probe _ d rfl
   intro e he
+  by_cases hsl : isSleep e = true
+  · cases e <;> simp [isSleep] at hsl
+    rfl
+  have he : e ∈ noSleep (runSession delay steps probe (runSession delay steps s m).2).1.trace :=
+    List.mem_filter.mpr ⟨he, by simpa using hsl⟩
+  rw [a, hT] at he
+  rw [probe_f]
   rcases List.mem_append.mp he with he | he
   · exact hnone e he
   · simp only [teardown, List.mem_reverse, List.mem_flatMap] at he
@@ -452,7 +734,7 @@ theorem power_off_count (delay : Nat) (steps : List Step) (s : Session) (m : Mac
     (hrc : m.rc = 0) (hb : balanced s.body 0 = true) (id : Nat) :
     List.count (.off id) (runSession delay steps s m).1.trace
       = List.count (.on id) (runSession delay steps s m).1.trace := by
-  obtain ⟨a, _⟩ := session_spec delay steps s m hrc hb
+  obtain ⟨a, _⟩ := session_spec_handling delay steps s m hrc hb
   rw [← count_noSleep _ rfl, ← count_noSleep (.on id) rfl, a]
   exact count_expectedTrace steps s.f s.body id
 
@@ -464,7 +746,7 @@ theorem power_off_position (delay : Nat) (steps : List Step) (s : Session) (m : 
     (h : expectedInit steps s.f = A ++ .on id :: B) :
     ∃ bod, noSleep (runSession delay steps s m).1.trace
       = (A ++ .on id :: B) ++ bod ++ (teardown s.f B ++ .off id :: teardown s.f A) := by
-  obtain ⟨a, _⟩ := session_spec delay steps s m hrc hb
+  obtain ⟨a, _⟩ := session_spec_handling delay steps s m hrc hb
   refine ⟨if (A ++ Ev.on id :: B).all (fun e => !raises s.f e) then expectedBody s.body else [], ?_⟩
   rw [a]
   unfold expectedTrace
@@ -478,7 +760,7 @@ theorem power_off_position (delay : Nat) (steps : List Step) (s : Session) (m : 
 theorem on_mem_trace_iff (delay : Nat) (steps : List Step) (s : Session) (m : Mach)
     (hrc : m.rc = 0) (hb : balanced s.body 0 = true) (id : Nat) :
     Ev.on id ∈ (runSession delay steps s m).1.trace ↔ Ev.on id ∈ expectedInit steps s.f := by
-  obtain ⟨a, _⟩ := session_spec delay steps s m hrc hb
+  obtain ⟨a, _⟩ := session_spec_handling delay steps s m hrc hb
   have h1 : Ev.on id ∈ (runSession delay steps s m).1.trace ↔ Ev.on id ∈ noSleep (runSession delay steps s m).1.trace := by
     simp [noSleep, isSleep]
   rw [h1, a]
@@ -516,13 +798,13 @@ theorem refused_no_power (delay : Nat) (steps : List Step) (s : Session) (m : Ma
     `X ++ poweroff w :: Y` with the connector's `__exit__` in `Y` — the board is switched off while
     the console connection is still open. -/
 theorem conn_exit_after_power_off (c : Case) (hwf : c.wf = true) (s : Session) (m : Mach)
-    (hrc : m.rc = 0) (hb : balanced s.body 0 = true) (k w : Nat) (hk : (⟨k, .conn⟩ : Step) ∈ c.mro)
+    (hrc : m.rc = 0) (hb : balanced s.body 0 = true) (k w : Nat) (hd : Bool) (hk : (⟨k, .conn, hd⟩ : Step) ∈ c.mro)
     (hon : Ev.on w ∈ (runSession c.delay (machSteps c.mro) s m).1.trace) :
     ∃ X Y, noSleep (runSession c.delay (machSteps c.mro) s m).1.trace = X ++ .off w :: Y
       ∧ Ev.exit k ∈ Y := by
   have hsteps : machSteps c.mro = specOrder c.mro := by
     simp only [Case.wf, Bool.and_eq_true, beq_iff_eq, decide_eq_true_eq] at hwf
-    obtain ⟨⟨⟨⟨⟨hc, hs⟩, _⟩, hh⟩, hl⟩, _⟩ := hwf
+    obtain ⟨⟨⟨⟨⟨⟨hc, hs⟩, _⟩, hh⟩, hl⟩, _⟩, _⟩ := hwf
     exact machSteps_eq_specOrder c.mro
       (by unfold Case.mro; rw [mroFrom_filter_length]; omega)
       (by unfold Case.mro; rw [mroFrom_filter_length]; omega)
@@ -534,7 +816,7 @@ theorem conn_exit_after_power_off (c : Case) (hwf : c.wf = true) (s : Session) (
   obtain ⟨bod, htr⟩ := power_off_position c.delay (specOrder c.mro) s m hrc hb w A B hAB
   refine ⟨A ++ Ev.on w :: B ++ bod ++ teardown s.f B, teardown s.f A, by rw [htr]; simp, ?_⟩
   -- the connector's enter is in `A` and did not raise
-  obtain ⟨P, Q, hPQ, hkP, hnoP⟩ := begin_split c.mro k hk
+  obtain ⟨P, Q, hPQ, hkP, hnoP⟩ := begin_split c.mro k hd hk
   obtain ⟨r, hr⟩ := uptoFirst_prefix (raises s.f) ((specOrder c.mro).flatMap beginEvs)
   have hA : ∀ a ∈ A, raises s.f a = false := uptoFirst_before (by unfold expectedInit at hAB; exact hAB)
   have hkA : Ev.enter k ∈ A := by
@@ -567,24 +849,197 @@ theorem power_off_exactly_once (c : Case) (hwf : c.wf = true) (s : Session) (m :
   have hpos : 0 < List.count (.on w) (runSession c.delay (machSteps c.mro) s m).1.trace :=
     List.count_pos_iff.mpr hon
   simp only [Case.wf, Bool.and_eq_true, beq_iff_eq, decide_eq_true_eq] at hwf
-  obtain ⟨⟨⟨⟨⟨hc, hs⟩, hp⟩, hh⟩, hl⟩, _⟩ := hwf
+  obtain ⟨⟨⟨⟨⟨⟨hc, hs⟩, hp⟩, hh⟩, hl⟩, _⟩, _⟩ := hwf
   have hsteps : machSteps c.mro = specOrder c.mro :=
     machSteps_eq_specOrder c.mro
       (by unfold Case.mro; rw [mroFrom_filter_length]; omega)
       (by unfold Case.mro; rw [mroFrom_filter_length]; omega)
       (by unfold Case.mro; rw [mroFrom_filter_length]; omega)
       (by unfold Case.mro; rw [mroFrom_filter_length]; omega)
-  obtain ⟨a, _⟩ := session_spec c.delay (machSteps c.mro) s m hrc hb
+  obtain ⟨a, _⟩ := session_spec_handling c.delay (machSteps c.mro) s m hrc hb
   have hle : List.count (.on w) (runSession c.delay (machSteps c.mro) s m).1.trace ≤ 1 := by
     rw [← count_noSleep (.on w) rfl, a, count_on_expectedTrace, hsteps]
     obtain ⟨r, hr⟩ := uptoFirst_prefix (raises s.f) ((specOrder c.mro).flatMap beginEvs)
     have h1 := count_on_specOrder_le w c.mro
     rw [hr, List.count_append] at h1
     have h2 : (c.mro.filter (fun s => s.kind == .power)).length = c.bases.count .power := by
-      unfold Case.mro; exact mroFrom_filter_length .power c.bases 0
+      unfold Case.mro; exact mroFrom_filter_length c.handlers .power c.bases 0
     unfold expectedInit
     omega
   omega
+
+
+/-! ## Handling steps: what reaches the caller, and that everything is still torn down -/
+
+theorem lastRaised_expectedBody (f : Faults) (k : Nat) : ∀ (ops : List Op), Ev.raise k ∈ expectedBody ops →
+    lastRaised f (expectedBody ops) none = some (.body k)
+  | [], h => by simp [expectedBody, uptoFirst] at h
+  | .raise j :: ops, h => by
+    rw [expectedBody_cons_raise] at h ⊢
+    simp only [List.mem_singleton, Ev.raise.injEq] at h
+    subst h
+    rfl
+  | .mark j :: ops, h => by
+    rw [expectedBody_cons_mark] at h ⊢
+    simp only [List.mem_cons, reduceCtorEq, false_or] at h
+    rw [lastRaised_cons]
+    exact lastRaised_expectedBody f k ops h
+  | .opened :: ops, h => by
+    rw [expectedBody_cons_opened] at h ⊢
+    simp only [List.mem_cons, reduceCtorEq, false_or] at h
+    rw [lastRaised_cons]
+    exact lastRaised_expectedBody f k ops h
+  | .closed :: ops, h => by
+    rw [expectedBody_cons_closed] at h ⊢
+    simp only [List.mem_cons, reduceCtorEq, false_or] at h
+    rw [lastRaised_cons]
+    exact lastRaised_expectedBody f k ops h
+
+/-- **The body's exception always propagates.**  Whatever the steps of the composition handle:
+    when the set-up completed and the body raised exception `k`, an exception reaches the caller
+    of `with m:` — `k` itself unless a tear-down fault that no step further out handled replaces
+    it; in particular `k` itself when no tear-down callback raises.  (`Machine.__exit__` discards
+    the verdict of its exit stack: a handling step never swallows the body's exception.) -/
+theorem body_exception_always_propagates (delay : Nat) (steps : List Step) (s : Session) (m : Mach)
+    (hrc : m.rc = 0) (hb : balanced s.body 0 = true) (k : Nat)
+    (hini : ∀ e ∈ expectedInit steps s.f, raises s.f e = false)
+    (hk : Ev.raise k ∈ expectedBody s.body) :
+    (runSession delay steps s m).1.exc = (survivingFault steps s.f).or (some (.body k))
+    ∧ (runSession delay steps s m).1.exc ≠ none
+    ∧ ((∀ e ∈ teardown s.f (expectedInit steps s.f), raises s.f e = false) →
+        (runSession delay steps s m).1.exc = some (.body k)) := by
+  obtain ⟨_, b, _⟩ := session_spec_handling delay steps s m hrc hb
+  have hown : ownExc steps s.f s.body = some (.body k) := by
+    unfold ownExc ownTrace
+    simp only [(all_not_raises_iff _ _).mpr hini, if_true, (ownCleanup_of_none steps s.f hini).1, List.append_nil]
+    rw [lastRaised_append, lastRaised_of_none s.f _ _ hini]
+    exact lastRaised_expectedBody s.f k s.body hk
+  have hexc : (runSession delay steps s m).1.exc = (survivingFault steps s.f).or (some (.body k)) := by
+    rw [b, expectedExc, hown]
+  refine ⟨hexc, ?_, ?_⟩
+  · rw [hexc]
+    cases survivingFault steps s.f <;> simp
+  · intro hq
+    rw [hexc, survivingFault, (ownCleanup_of_none steps s.f hini).2, pendingFault_of_none _ _ _ hq]
+    rfl
+
+/-- … and so does the set-up's own exception: when a step fails to come up, an exception reaches
+    the caller whatever the steps that are torn down handle -/
+theorem setup_exception_always_propagates (delay : Nat) (steps : List Step) (s : Session) (m : Mach)
+    (hrc : m.rc = 0) (hb : balanced s.body 0 = true)
+    (hini : (expectedInit steps s.f).any (raises s.f) = true) :
+    (runSession delay steps s m).1.exc ≠ none := by
+  rw [Ne, exc_iff_raised_handling delay steps s m hrc hb]
+  rintro ⟨h, _⟩
+  rw [List.any_eq_true] at hini
+  obtain ⟨e, he, hr⟩ := hini
+  have : e ∈ ownTrace steps s.f s.body := by
+    simp only [ownTrace, List.mem_append]
+    exact Or.inl (Or.inl he)
+  rw [h e this] at hr
+  cases hr
+
+/-- **A tear-down fault propagates unless a step further out handles it.**  Let `e` be a tear-down
+    callback of a started step that raises `x`, and let no callback after it (`B`: the steps
+    further out) raise.  Then `x` reaches the caller iff none of the steps further out handles;
+    otherwise the caller gets exactly what it would have got without that fault: the set-up's /
+    body's own exception (none if there is none). -/
+theorem teardown_fault_propagates_unless_handled (delay : Nat) (steps : List Step) (s : Session) (m : Mach)
+    (hrc : m.rc = 0) (hb : balanced s.body 0 = true) (A B : List Ev) (e : Ev) (x : Tag)
+    (htd : stackTeardown s.f steps = A ++ e :: B) (hx : faultTag s.f e = some x)
+    (hB : ∀ b ∈ B, raises s.f b = false) :
+    (runSession delay steps s m).1.exc
+      = if B.any (handlesEv (handlesOf steps)) then ownExc steps s.f s.body else some x := by
+  obtain ⟨_, b, _⟩ := session_spec_handling delay steps s m hrc hb
+  rw [b, expectedExc, survivingFault, htd, pendingFault_append, pendingFault_cons, hx]
+  simp only
+  rw [pendingFault_quiet _ _ _ _ hB]
+  cases B.any (handlesEv (handlesOf steps)) <;> simp
+
+/-- **Handled or not, every started step is torn down.**  Whatever the steps handle: the context
+    manager of every step that was entered is exited exactly as often as it was entered, and the
+    log (without the `powercycle_delay` waits) is the log of the same composition with no handling
+    step at all — the same callbacks in the same order. -/
+theorem handled_steps_still_torn_down (delay : Nat) (steps : List Step) (s : Session) (m : Mach)
+    (hrc : m.rc = 0) (hb : balanced s.body 0 = true) :
+    (∀ i, s.f (.enter i) = false →
+      List.count (.exit i) (runSession delay steps s m).1.trace
+        = List.count (.enter i) (runSession delay steps s m).1.trace)
+    ∧ noSleep (runSession delay steps s m).1.trace
+        = noSleep (runSession delay (steps.map fun st => { st with handles := false }) s m).1.trace := by
+  obtain ⟨a, _⟩ := session_spec_handling delay steps s m hrc hb
+  obtain ⟨a', _⟩ := session_spec_handling delay (steps.map fun st => { st with handles := false }) s m hrc hb
+  refine ⟨?_, by rw [a, a', expectedTrace_clear]⟩
+  intro i hf
+  rw [← count_noSleep _ rfl, ← count_noSleep (.enter i) rfl, a]
+  exact count_exit_expectedTrace steps s.f s.body i hf
+
+theorem specOrder_mem {mro : List Step} {s : Step} (h : s ∈ specOrder mro) : s ∈ mro := by
+  unfold specOrder at h
+  rw [List.mem_flatMap] at h
+  obtain ⟨_, _, h⟩ := h
+  exact (List.mem_filter.mp h).1
+
+theorem specSessions_eq_plain (steps : List Step) (hno : ∀ s ∈ steps, s.handles = false) :
+    ∀ (ss : List Session) (os : List SObs), specSessions steps ss os = specSessionsPlain steps ss os
+  | [], [] => rfl
+  | [], _ :: _ => rfl
+  | _ :: _, [] => rfl
+  | s :: ss, o :: os => by
+    simp only [specSessions, specSessionsPlain, specSession, specSessionPlain, expectedExc_plain steps hno,
+      specSessions_eq_plain steps hno ss os]
+
+/-- **Without handling steps the Spec is what it was**: on every composition none of whose steps
+    handles — and for EVERY observation, not only the model's — `Spec.C13` coincides with the
+    formulation "the last exception raised reaches the caller". -/
+theorem spec_eq_plain (c : Case) (o : List SObs) (hno : ∀ s ∈ c.mro, s.handles = false) :
+    Spec.C13 c o = Spec.C13plain c o := by
+  unfold Spec.C13 Spec.C13plain
+  rw [specSessions_eq_plain _ (fun s hs => hno s (specOrder_mem hs))]
+
+theorem mroFrom_no_handlers : ∀ (ks : List Kind) (i : Nat), ∀ s ∈ mroFrom [] i ks, s.handles = false
+  | [], _, s, h => by simp [mroFrom] at h
+  | k :: ks, i, s, h => by
+    simp only [mroFrom, List.mem_cons] at h
+    rcases h with rfl | h
+    · rfl
+    · exact mroFrom_no_handlers ks (i + 1) s h
+
+/-- in particular for every case written without `handlers` (all cases of the former domain) -/
+theorem spec_eq_plain_of_no_handlers (c : Case) (o : List SObs) (h : c.handlers = []) :
+    Spec.C13 c o = Spec.C13plain c o := by
+  apply spec_eq_plain
+  unfold Case.mro
+  rw [h]
+  exact mroFrom_no_handlers c.bases 0
+
+/-- the step table of a case says of every step what the step itself says -/
+theorem handlesOf_mro (c : Case) : ∀ s ∈ c.mro, handlesOf c.mro s.id = s.handles := by
+  have key : ∀ (ks : List Kind) (i : Nat), ∀ s ∈ mroFrom c.handlers i ks, s.handles = c.handlers.contains s.id := by
+    intro ks
+    induction ks with
+    | nil => intro i s h; simp [mroFrom] at h
+    | cons k ks ih =>
+      intro i s h
+      simp only [mroFrom, List.mem_cons] at h
+      rcases h with rfl | h
+      · rfl
+      · exact ih (i + 1) s h
+  intro s hs
+  have hs' := key c.bases 0 s hs
+  unfold handlesOf
+  cases hh : s.handles with
+  | true =>
+    rw [List.any_eq_true]
+    exact ⟨s, hs, by simp [hh]⟩
+  | false =>
+    rw [List.any_eq_false]
+    intro s' hs''
+    have := key c.bases 0 s' hs''
+    by_cases hid : s'.id = s.id
+    · rw [hid, ← hs', hh] at this
+      simp [this]
+    · simp [hid]
 
 
 /-- **powercycle_delay.**  When the class has switched power off at tick `t`, the next `poweron`
@@ -614,7 +1069,7 @@ example : ((run ex1).map (·.trace))[0]? = some [.enter 0, .enter 1, .enter 2, .
 example : Spec.C13 ex1 (run ex1) = true := run_spec ex1 (by decide)
 
 /-- the hypotheses of `conn_exit_after_power_off` are satisfiable (connector 1, power step 3) -/
-example : (⟨1, .conn⟩ : Step) ∈ ex1.mro
+example : (⟨1, .conn, false⟩ : Step) ∈ ex1.mro
     ∧ Ev.on 3 ∈ (runSession ex1.delay (machSteps ex1.mro) { faults := [.exit 4] } {}).1.trace := by decide
 
 /-- `power_off_exactly_once` on the witness: a failing `poweron` is still followed by exactly one `poweroff` -/
@@ -634,5 +1089,71 @@ example : Spec.C13 { ex1 with sessions := [] }
 example : Spec.C13 ex1 ((run ex1).map fun o => { o with exc := none }) = false := by decide
 example : Spec.C13 ex1 ((run ex1).map fun o => { o with rc := 1 }) = false := by decide
 example : Spec.C13 ex1 ((run ex1).dropLast ++ [⟨[], none, 0⟩]) = false := by decide
+
+/-! ### with handling steps -/
+
+/-- `ex1` with the first pre-connect step (0) and the second initialiser (4) handling:
+    session 1: the body raises and the exit of the shell (5) raises — handled by step 4, further
+    out: the BODY's exception reaches the caller;
+    session 2: the exit of the handling step 0 itself raises — nothing further out: it propagates;
+    session 3: `poweron` and the `poweroff` in its `finally` raise, then the exit of step 2 raises —
+    handled by step 0: the set-up's own exception (`off 3`) reaches the caller;
+    session 4: only the exit of step 2 raises — handled by step 0: nothing reaches the caller. -/
+def ex2 : Case :=
+  { ex1 with
+    handlers := [0, 4],
+    sessions := [{ faults := [.exit 5], body := [.mark 1, .raise 1] },
+                 { faults := [.exit 0], body := [.opened, .closed] },
+                 { faults := [.on 3, .off 3, .exit 2], body := [.raise 2] },
+                 { faults := [.exit 2], body := [] }] }
+
+example : ex2.wf = true := by decide
+example : (run ex2).map (·.exc) = [some (.body 1), some (.exit 0), some (.off 3), none, none] := by decide
+example : ((run ex2).map (·.trace))[0]? = some [.enter 0, .enter 1, .enter 2, .check 3, .on 3, .enter 4, .enter 5,
+    .enter 6, .hook 7, .mark 1, .raise 1, .exit 6, .exit 5, .exit 4, .off 3, .exit 2, .exit 1, .exit 0] := by decide
+example : Spec.C13 ex2 (run ex2) = true := run_spec ex2 (by decide)
+/-- the Spec has changed where steps handle (the former formulation rejects the model's — and the
+    implementation's — behaviour), and only there -/
+example : Spec.C13plain ex2 (run ex2) = false := by decide
+example : Spec.C13plain ex1 (run ex1) = true := by rw [← spec_eq_plain_of_no_handlers ex1 _ rfl]; exact run_spec ex1 (by decide)
+/-- the Spec rejects a body exception swallowed by a handling step (what `Machine.__exit__` would do
+    if it returned the verdict of its exit stack), a handled tear-down fault that reaches the caller
+    all the same, and a handling step that is not torn down -/
+example : Spec.C13 ex2 ((run ex2).set 0 { (run ex2)[0]! with exc := none }) = false := by decide
+example : Spec.C13 ex2 ((run ex2).set 3 { (run ex2)[3]! with exc := some (.exit 2) }) = false := by decide
+example : Spec.C13 ex2 ((run ex2).map fun o => { o with trace := o.trace.filter (· != .exit 4) }) = false := by decide
+/-- a lab-host clone that handles is outside the domain -/
+example : ({ bases := [.host, .conn, .shell], delay := 0, sessions := [], handlers := [0] } : Case).wf = false := by decide
+
+/-- hypotheses of `body_exception_always_propagates` (session 1 of `ex2`): satisfiable, and the
+    tear-down does raise there — the conclusion is about a handled fault -/
+example : (∀ e ∈ expectedInit (machSteps ex2.mro) (ex2.sessions[0]!).f, raises (ex2.sessions[0]!).f e = false)
+    ∧ Ev.raise 1 ∈ expectedBody (ex2.sessions[0]!).body
+    ∧ survivingFault (machSteps ex2.mro) (ex2.sessions[0]!).f = none
+    ∧ (teardown (ex2.sessions[0]!).f (expectedInit (machSteps ex2.mro) (ex2.sessions[0]!).f)).any
+        (raises (ex2.sessions[0]!).f) = true := by decide
+
+/-- hypotheses of `teardown_fault_propagates_unless_handled`: satisfiable in both branches
+    (session 1: the fault of `exit 5` with the handling step 4 further out; session 2: the fault of
+    `exit 0` with nothing further out) -/
+example : stackTeardown (ex2.sessions[0]!).f (machSteps ex2.mro)
+      = [.exit 6] ++ .exit 5 :: [.exit 4, .off 3, .exit 2, .exit 1, .exit 0]
+    ∧ faultTag (ex2.sessions[0]!).f (.exit 5) = some (.exit 5)
+    ∧ ([Ev.exit 4, .off 3, .exit 2, .exit 1, .exit 0].any (handlesEv (handlesOf (machSteps ex2.mro)))) = true := by decide
+example : stackTeardown (ex2.sessions[1]!).f (machSteps ex2.mro)
+      = [.exit 6, .exit 5, .exit 4, .off 3, .exit 2, .exit 1] ++ .exit 0 :: []
+    ∧ faultTag (ex2.sessions[1]!).f (.exit 0) = some (.exit 0) := by decide
+
+/-- the console connector: `connect()` (2) fails, the exit of the lab-host clone (1) raises inside
+    `ConsoleConnector._connect` — the set-up's own exception, which the handling step 0 further out
+    cannot take away from the caller -/
+def ex3 : Case :=
+  { bases := [.pre, .host, .conn, .shell], delay := 0, handlers := [0],
+    sessions := [{ faults := [.enter 2, .exit 1] }] }
+
+example : ex3.wf = true := by decide
+example : (run ex3).map (·.exc) = [some (.exit 1), none] := by decide
+example : ownCleanup (ex3.sessions[0]!).f (machSteps ex3.mro) = [.exit 1]
+    ∧ stackTeardown (ex3.sessions[0]!).f (machSteps ex3.mro) = [.exit 0] := by decide
 
 end C13
